@@ -108,6 +108,7 @@ def scan(text):
 
 LITS = ["'plain'", '"dq"', "'it''s'", '"a!b"', "'c & d'", '"x // y"', "'say \"hi\"'", '"e&"', "'!'", '""', "'&'",
         "'\\'", '"\\"', "'C:\\dir\\'", '"a\\b"',  # a backslash is an ordinary character
+        "'/*'", '"a /* b"', "'*/'",  # C comment markers mean nothing inside a Fortran literal
         "'x &! y'", '"fast &   ! furious"', "'a&!'", '"& !"', "'!&'", '"a ! b & c ! d"', "'&&'", "'! $omp'"]
 COMMENTS = ["! comment", "!comment & more", "! it's \"quoted\"", "!! double", "!   ", "! & ampersand &"]
 SENTINELS = ["!$omp parallel", "!$omp end parallel", "!$acc kernels", "!$acc end kernels", "!$ x = 2", "!dir$ ivdep", "!dec$ novector", "!$OMP BARRIER"]
@@ -272,7 +273,7 @@ def render(case):
             prev = [t for t, r in body[:k] if r == "code"]
             return not prev or not re.sub(r"!.*$", "", prev[-1]).rstrip().endswith("&") and not re.search(r"&\s*$", prev[-1])
         pos = next((k for k in (2, 1, 0, len(body)) if k <= len(body) and complete(k)), 0)
-        body = body[:pos] + [('#include "mid.h"' if case.get("nest") else '#include "part.inc"', "directive")] + body[pos:]
+        body = body[:pos] + [('#include "mid.h"' if case.get("nest") else '#include "part.fi"', "directive")] + body[pos:]
     if case.get("frag"):
         body = body + [("call f_frag(x, &", "code"), ('#include "frag.fi"', "directive"), ("     y)", "code")]
     lines += body + [(t, "code") for t in TAIL]
@@ -306,7 +307,7 @@ def check_case(case, res: Result):
         nest = bool(case.get("nest")) and inc is not None
         d = os.path.join(top, "cb") if nest else top
         incdir = os.path.join(top, "ext") if nest else top
-        incname = "inner.h" if nest else "part.inc"
+        incname = "inner.h" if nest else "part.fi"
         os.makedirs(d, exist_ok=True)
         os.makedirs(incdir, exist_ok=True)
         name = "main" + case["ext"]
@@ -406,7 +407,7 @@ def check_case(case, res: Result):
         for fname, text in ((name, main), (incname, inc)):
             if text is None:
                 continue
-            if nest and fname != name and t2 is None:
+            if fname != name and state.get_tree(os.path.join(incdir, fname)) is None:
                 continue  # never reached, so never parsed: nothing to attribute
             a, probs = observe.attribution_of(state, os.path.join(d if fname == name else incdir, fname))
             for ln, t in enumerate(text.split("\n"), 1):
